@@ -553,9 +553,13 @@ def c16(report, rng, tier, findings):
             conds = [('or', ec, ('cmp', 'eq', E, ('lit', ('i', rng.randint(0, 4)))))]
         cases.append({'id': f'c{i}', 'classes': [('A', '-')], 'objs': objs, 'vars': [(0, 'A', raw)], 'quant': 'an',
                       'sel': sel, 'cond': conds or None, 'entity': len(sel) == 1})
+        if rng.random() < 0.4:
+            cases[-1]['pre_take'] = rng.randint(1, 4)
+            report.count('after_an_abandoned_evaluation')
     report.rule = ("1-5 parents whose inner collections are empty, overlapping, scalar (non-iterable) or carry repeated / falsy "
                    "elements; flatten(p.items) selected alone, with the parent (either order); no condition, a condition on the "
-                   "parent, on the element, both, or a disjunction on the element; rows compared with the UNNEST oracle as a multiset "
+                   "parent, on the element, both, or a disjunction on the element; 40% of the cases are evaluated after an "
+                   "evaluation of the same query that was abandoned after 1-4 rows; rows compared with the UNNEST oracle as a multiset "
                    "when parent and element are selected and no collection repeats an element, as a set otherwise; non-trivial = at "
                    "least two parents with non-empty collections")
 
@@ -759,7 +763,10 @@ def c13(report, rng, tier, findings):
         # make domains mixed-type: every variable ranges over a random class, domain = all objects
         all_objs = [('o', j) for j, _, _ in base['objs']]
         classes = [c for c, _ in base['classes']]
-        base['vars'] = [(vid, rng.choice(classes), rng.sample(all_objs, len(all_objs))) for vid, _, _ in base['vars']]
+        # ... or (half of the time) a random subset of them, so that instances of the class exist OUTSIDE the supplied domain
+        base['vars'] = [(vid, rng.choice(classes),
+                         rng.sample(all_objs, len(all_objs) if rng.random() < 0.5 else rng.randint(0, len(all_objs))))
+                        for vid, _, _ in base['vars']]
         extra = base['cond'] if rng.random() < 0.4 else []
         pform, eq_by_var, nested = {}, {}, False
         ovars = list(base['vars'])
